@@ -539,7 +539,8 @@ class Fortran90OperatorsRule(GenericRule):  # Coding standards 4.15
                 line = [line for line in lines if op_str in strip_inline_comments(line.string)]
                 if not line:
                     line = [line for line in lines
-                            if op_str in strip_inline_comments(line.string.replace(cls._op_map[op_str], op_str))]
+                            if op_str in strip_inline_comments(
+                                re.sub(re.escape(cls._op_map[op_str]), op_str, line.string, flags=re.I))]
 
                 source_string = strip_inline_comments(line[0].string)
                 matches = cls._op_patterns[op].findall(source_string)
